@@ -138,7 +138,9 @@ def _operator_case(draw):
 
     Y = [[[word() for _ in range(draw(st.integers(1, 2)))] for _ in range(sizes[j])] for _ in range(sizes[i])]
     return {"mode": "operator", "modes": modes, "sizes": sizes, "index": [i, j], "Y": Y, "freq_order": list(draw(st.permutations(range(7)))),
-            "offsets": [[draw(st.integers(0, 6)) for _ in range(s)] for s in sizes], "kerr": draw(st.booleans())}
+            "offsets": [[draw(st.integers(0, 6)) for _ in range(s)] for s in sizes], "kerr": draw(st.booleans()),
+            # the same solver object is first asked for another block pair (its answer is not inspected)
+            "warmup": draw(st.booleans())}
 
 
 def strategy(tier):
@@ -649,6 +651,21 @@ def _check_operator(case, out, wlist):
     eigs = tuple([h_expr(off, b) for off in case["offsets"][b]] for b in range(len(sizes)))
     try:
         solve = solve_sylvester_2nd_quant(eigs)
+        other = [(a, b_) for a in range(len(sizes)) for b_ in range(len(sizes)) if a != b_ and (a, b_) != (i, j)]
+        if case.get("warmup") and other:
+            # one solver object serves every block pair: a call for another pair (the same right-hand side entries
+            # recycled into its shape; that pair may be resonant, so its answer is not inspected and may even fail)
+            # must not influence the answer for (i, j)
+            a, b_ = other[0]
+            Yw = sympy.Matrix(sizes[a], sizes[b_], lambda r, c: W[r % rows][c % cols])
+            out.labels.append("operator-solver-reused-for-another-pair")
+            try:
+                with warnings.catch_warnings():
+                    warnings.simplefilter("ignore")
+                    solve(Yw, (a, b_, 1))
+            except Exception:  # noqa: BLE001
+                solve = solve_sylvester_2nd_quant(eigs)
+                out.labels.append("operator-warmup-raised")
         X = solve(Y, (i, j, 1))
     except Exception as exc:  # noqa: BLE001
         out.fail("exception", f"solve_sylvester_2nd_quant raised {type(exc).__name__}: {str(exc)[:200]} for Y = {Y}")
